@@ -87,6 +87,13 @@ def run(ctx, crates):
             ctx.seen(f)
         cs = cache[f.path]
         have = [c for c in cs if validation.norm(c["subject"], c["op"], c["other"]) == cond]
+        if len(have) < mincount:
+            # rename tolerance: the same operator and the same integer bound on exactly `mincount` checks of this function
+            parts = cond.rsplit(" ", 2)
+            if len(parts) == 3 and parts[2].lstrip("-").isdigit() and abs(int(parts[2])) >= 2:
+                alt = [c for c in cs if validation.norm("_", c["op"], c["other"]) == "_ %s %s" % (parts[1], parts[2])]
+                if len(alt) == mincount:
+                    have = alt
         key = "%s|%s" % (f.path, cond)
         if len(have) >= mincount:
             ok = True
